@@ -104,7 +104,7 @@ RULES = {
            "; non-trivial = at least one push popped again after a word was flushed to bulk or after a re-import; "
            "distinct = distinct canonical hash of the decoded choices",
     "C02": "case = (config row, encoder constructor, message of <=80 (quick) / <=2000 (thorough) symbols with per-symbol "
-           "table, one of 8 decoder constructions); " + GRID + "; non-trivial = message with >=1 renormalisation "
+           "table, one of 8 decoder constructions; optionally one clear() at a generated symbol boundary, after which the message starts afresh); " + GRID + "; non-trivial = message with >=1 renormalisation "
            "(word emitted or held back); labels count inverted situations, carries resolved up/down, seals while inverted",
     "C04": "case = (config row, word data 0..24 words (quick) / 0..200 (thorough) from a mixture incl. all-zero, all-ones, "
            "trailing zero words, number of decodes 0..40 / 0..400 with arbitrary tables, optional interleaved push/pop, "
